@@ -14,6 +14,7 @@ package trzsz
 // the model's expectation where TLC exported one.
 
 import (
+	"bufio"
 	"bytes"
 	"encoding/json"
 	"fmt"
@@ -616,11 +617,33 @@ func c16RelayApplies(c *c16Case) bool {
 	return true
 }
 
+func c16Kind(it *c16Item) string {
+	k := it.K
+	switch {
+	case k == "csi" && len(it.B) == 1 && it.B[0] == '!':
+		return "csi:soft"
+	case k == "csi" && len(it.C) == 1 && it.C[0] == 'H' && len(it.B) == 0:
+		return "csi:home"
+	case k == "csi" && len(it.C) == 1 && it.C[0] == 'H':
+		return "csi:pos"
+	case k == "csi":
+		return "csi:plain"
+	case k == "st" && it.N > 0:
+		return "st:truncated"
+	case k == "st" && len(it.W) > 0:
+		return "st:wrapped"
+	case k == "st":
+		return "st:pair"
+	}
+	return k
+}
+
 func c16MBT(d *vCtx) error {
-	cases, err := c16ReadCases(d.pStr("cases", d.path("cases.ndjson")))
+	f, err := os.Open(d.pStr("cases", d.path("cases.ndjson")))
 	if err != nil {
 		return err
 	}
+	defer f.Close()
 	allMax := d.pInt("allmax", 10)
 	nrand := d.pInt("nrand", 6)
 	sampleEvery := d.pInt("sample", 50)
@@ -628,9 +651,16 @@ func c16MBT(d *vCtx) error {
 	if err != nil {
 		return err
 	}
+	type job struct {
+		ci   int
+		line []byte
+	}
+	jobs := make(chan job, 256)
 	var mu sync.Mutex
 	var all []c16Mismatch
-	runs, drift := 0, 0
+	var firstErr error
+	runs, drift, ncases, nmism := 0, 0, 0, 0
+	kinds := map[string]int{}
 	nw := runtime.NumCPU()
 	var wg sync.WaitGroup
 	for w := 0; w < nw; w++ {
@@ -638,38 +668,76 @@ func c16MBT(d *vCtx) error {
 		go func(w int) {
 			defer wg.Done()
 			rng := d.rng(int64(1600 + w))
-			lr, ld := 0, 0
+			lr, ld, ln := 0, 0, 0
+			lk := map[string]int{}
 			budget := d.pInt("record_mismatches", 16)
 			var lm []c16Mismatch
-			for ci := w; ci < len(cases); ci += nw {
-				c := cases[ci]
+			for j := range jobs {
+				c := &c16Case{}
+				if err := json.Unmarshal(j.line, c); err != nil {
+					mu.Lock()
+					firstErr = err
+					mu.Unlock()
+					continue
+				}
+				ln++
+				for i := range c.Items {
+					lk[c16Kind(&c.Items[i])]++
+				}
 				if !bytes.Equal(c16RenderAll(c.Items, c.Mode), c16B(c.Bytes)) {
 					ld++
 					continue
 				}
-				n, mm := c16RunCase(ci, c, c16Chunkings(c, allMax, nrand, rng), rec, ci%sampleEvery == 0, c16RelayApplies(c), &budget)
+				n, mm := c16RunCase(j.ci, c, c16Chunkings(c, allMax, nrand, rng), rec, j.ci%sampleEvery == 0, c16RelayApplies(c), &budget)
 				lr += n
-				lm = append(lm, mm...)
+				if len(lm) < 64 {
+					lm = append(lm, mm...)
+				}
+				mu.Lock()
+				nmism += len(mm)
+				mu.Unlock()
 			}
 			mu.Lock()
 			runs += lr
 			drift += ld
+			ncases += ln
+			for k, v := range lk {
+				kinds[k] += v
+			}
 			all = append(all, lm...)
 			mu.Unlock()
 		}(w)
 	}
+	sc := bufio.NewScanner(f)
+	sc.Buffer(make([]byte, 1<<20), 1<<28)
+	ci := 0
+	for sc.Scan() {
+		if len(bytes.TrimSpace(sc.Bytes())) == 0 {
+			continue
+		}
+		jobs <- job{ci, append([]byte(nil), sc.Bytes()...)}
+		ci++
+	}
+	close(jobs)
 	wg.Wait()
+	if sc.Err() != nil {
+		return sc.Err()
+	}
+	if firstErr != nil {
+		return firstErr
+	}
 	events, err := rec.close()
 	if err != nil {
 		return err
 	}
 	sort.Slice(all, func(i, j int) bool { return all[i].Case < all[j].Case })
-	d.set("cases", len(cases))
+	d.set("cases", ncases)
 	d.set("runs", runs)
 	d.set("render_drift", drift)
-	d.set("mismatches", len(all))
+	d.set("mismatches", nmism)
 	d.set("events", events)
 	d.set("recorded", rec.nextID-rec.base)
+	d.set("item_kinds", kinds)
 	if len(all) > 400 {
 		all = all[:400]
 	}
